@@ -413,11 +413,12 @@ def run_loop(case: dict[str, Any]) -> dict[str, Any]:
             n += 1
             old, new, diff = c.get('old'), c.get('new'), c.get('diff') or []
             got = apply_diff([(d[0], tuple(d[1]), d[2], d[3]) for d in diff], old)
+            from kv.refmodels import _strip_nulls
             if not json_eq_mod_null(got, new):
-                viol.append({'mech': 'handler-diff-unsound', 'msg': f"{c['h']}: applying the diff kwarg to the old kwarg does not give the new kwarg",
+                viol.append({'mech': 'bool-int-conflation' if _strip_nulls(got) == _strip_nulls(new) else 'handler-diff-unsound', 'msg': f"{c['h']}: applying the diff kwarg to the old kwarg does not give the new kwarg",
                              'witness': {'old': old, 'new': new, 'diff': diff, 'applied': got}})
             if not diff and not json_eq_mod_null(old, new) and c['kind'] != 'create':
-                viol.append({'mech': 'handler-diff-incomplete', 'msg': f"{c['h']}: empty diff kwarg although old != new", 'witness': {'old': old, 'new': new}})
+                viol.append({'mech': 'bool-int-conflation' if _strip_nulls(old) == _strip_nulls(new) else 'handler-diff-incomplete', 'msg': f"{c['h']}: empty diff kwarg although old != new", 'witness': {'old': old, 'new': new}})
             spec = ix.specs[c['h']]
             f = (spec.get('opts') or {}).get('field')
             if f and c['kind'] != 'create':
